@@ -369,6 +369,14 @@ impl Report {
         match &out.failure {
             None => None,
             Some(f) => {
+                if f.signature.starts_with("inconclusive:") {
+                    // a time budget / socket timeout is never a violation (exit 2 instead)
+                    let mut g = self.inconclusive.lock().unwrap();
+                    if g.len() < 5 {
+                        g.push(format!("{} — {}", f.signature, f.detail));
+                    }
+                    return None;
+                }
                 if self.is_known(&f.signature) {
                     let e = local.known_hits.entry(f.signature.clone()).or_insert((0, None));
                     e.0 += 1;
